@@ -24,9 +24,9 @@ func init() {
 		Doc: "once a function has derived a cancellable context from its context parameter, it does not use the parameter again: everything after context.WithCancel(ctx) must observe the derived context, which is the one Cancel()/Close() cancel"})
 	register(&Rule{ID: "R-QUERYCLOSE", Min: 1, Run: ruleQueryClose,
 		Doc: "every promql.Query the repo executes itself (remote sub-queries) is closed by a defer registered before Exec is called: it is released on success, on error and on cancellation alike"})
-	register(&Rule{ID: "R-ERRFIRST", Min: 3, Run: ruleErrFirst,
+	register(&Rule{ID: "R-ERRFIRST", Min: 2, Run: ruleErrFirst,
 		Doc: "a function that collects errors from the goroutines it spawns through an error channel examines that channel before it reports success: every nil-error return that can follow the spawn is dominated by a receive from the channel"})
-	register(&Rule{ID: "R-STEPTS", Min: 6, Run: ruleStepTS,
+	register(&Rule{ID: "R-STEPTS", Min: 5, Run: ruleStepTS,
 		Doc: "a step vector created inside a loop is stamped with a value that varies with that loop (the step cursor, the input vector's T), never with a loop-invariant value or a constant: empty steps keep that stamp, and consumers such as scalar() emit a sample for them"})
 
 	mutant(Mutant{Rule: "R-ALLOCSIZE", Name: "heap-presized-by-k", File: "execution/aggregate/khashaggregate.go",
@@ -430,27 +430,8 @@ func ruleStepTS(p *core.Program) []core.Obligation {
 			k++
 			key := fmt.Sprintf("%s stamps a step vector created in a loop #%d", core.FuncName(fn), k)
 			t := call.Call.Args[1]
-			// the innermost loop containing b: header h dominates b and b reaches h; innermost = the header dominated by all others
-			var header *ssa.BasicBlock
-			for _, h := range fn.Blocks {
-				isHeader := false
-				for _, pr := range h.Preds {
-					if core.BlockDominates(h, pr) {
-						isHeader = true // a back edge ends here
-					}
-				}
-				if !isHeader {
-					continue
-				}
-				if h.Dominates(b) || h == b {
-					if core.Reaches(b, h) && (header == nil || header.Dominates(h)) {
-						header = h
-					}
-				}
-			}
-			inLoop := func(x *ssa.BasicBlock) bool {
-				return header != nil && (x == header || (header.Dominates(x) && core.Reaches(x, header)))
-			}
+			loop := core.InnermostLoop(fn, b)
+			inLoop := func(x *ssa.BasicBlock) bool { return loop[x] }
 			variant := false
 			core.BackSlice(t, func(x ssa.Value) bool {
 				ins2, ok := x.(ssa.Instruction)
